@@ -13,6 +13,10 @@ extern crate alloc;
 pub mod kq;
 #[cfg(all(kani, feature = "k_q"))]
 pub use kq as env;
+#[cfg(all(kani, feature = "k_rec"))]
+pub mod krec;
+#[cfg(all(kani, feature = "k_rec"))]
+pub use krec as env;
 
 #[cfg(all(not(kani), feature = "k_native"))]
 pub mod kn;
@@ -22,6 +26,10 @@ pub use kn as env;
 pub mod nk;
 #[cfg(not(kani))]
 pub use nk as kani;
+#[cfg(kani)]
+pub mod kani {
+    pub use ::kani::*;
+}
 
 /// `kani::cover!` under Kani, nothing natively
 #[cfg(kani)]
@@ -43,7 +51,7 @@ macro_rules! harnesses {
         $(
             #[cfg_attr(kani, kani::proof)]
             #[cfg_attr(kani, kani::unwind($u))]
-            #[cfg_attr(kani, kani::stub(alloc::fmt::format, crate::util_q::fmt_stub))]
+            #[cfg_attr(kani, kani::stub(alloc::fmt::format, crate::util::fmt_stub))]
             pub fn $name() $body
         )*
         #[cfg(not(kani))]
@@ -56,14 +64,15 @@ macro_rules! harnesses {
     };
 }
 
-#[cfg(any(all(kani, feature = "k_q"), all(not(kani), feature = "k_native")))]
-pub mod util_q;
+pub mod util;
 #[cfg(any(all(kani, feature = "k_q"), all(not(kani), feature = "k_native")))]
 pub mod h_c16;
+#[cfg(any(all(kani, feature = "k_rec"), all(not(kani), feature = "k_native")))]
+pub mod h_send;
 
 #[cfg(all(not(kani), feature = "k_native"))]
 pub fn lookup(name: &str) -> Option<fn()> {
-    h_c16::lookup(name)
+    h_c16::lookup(name).or_else(|| h_send::lookup(name))
 }
 
 /// compiled once per feature set to warm the dependency cache (vlib/kanirun.py: seed_target)
